@@ -913,6 +913,10 @@ func evalFunctionApplication(node *jparse.FunctionApplicationNode, data reflect.
 	// evaluate it.
 	if f, ok := node.RHS.(*jparse.FunctionCallNode); ok {
 
+		// Work on a copy of the call node. The syntax tree is
+		// shared by every evaluation of this expression and
+		// must not be modified.
+		f = &jparse.FunctionCallNode{Func: f.Func, Args: f.Args}
 		f.Args = append([]jparse.Node{node.LHS}, f.Args...)
 		return evalFunctionCall(f, data, env)
 	}
